@@ -326,6 +326,9 @@ def standard_compare(res, cases, impl, model, check_sodium=True, check_spec=True
             m, sp = "n/a", "n/a"
             res.extra["model_unsupported"] = res.extra.get("model_unsupported", 0) + 1
         answers = {"impl": i, "sodium": s, "model": m, "spec": sp}
+        if i == "n/a":      # this build of the runner does not offer the operation (e.g. heap containers on stable)
+            res.extra["impl_unsupported"] = res.extra.get("impl_unsupported", 0) + 1
+            continue
         if i not in ("n/a",) :
             res.distinct.add(hashlib.sha1((c.line.split(" ")[0] + "|" + i).encode()).hexdigest())
         if len(res.samples) < 12 and res.evaluations % max(1, len(cases) // 12) == 0:
